@@ -81,6 +81,12 @@ theorem history_inv (cfg : Cfg) (h1 : OneTimeout cfg) (as : List Act) (hf : ∀ 
       exact ih (fun b hb => hf b (List.mem_cons_of_mem _ hb)) _ (stepAct_inv h1 s a (hf a (List.mem_cons_self ..)) hi)
   exact this {} ⟨HistInv.init cfg, RelayInv.init, fun i j x y _ hx => by simp at hx⟩
 
+/-- the executable form of the history invariants (what the model driver's `hist` evaluates on co-simulated histories): within the
+hypotheses both mirrors answer true -/
+theorem history_mirrors (cfg : Cfg) (h1 : OneTimeout cfg) (as : List Act) (hf : ∀ a ∈ as, FreshAct a) :
+    histOK cfg (runActs cfg {} as) = true ∧ oneUnfB (runActs cfg {} as) = true :=
+  ⟨(histOK_iff cfg _).mpr (history_inv cfg h1 as hf).hist, oneUnfB_of (history_inv cfg h1 as hf).one⟩
+
 /-! ## reading a chain -/
 
 theorem chain_adjacent {cfg : Cfg} : ∀ (l : List Rec) (k : Nat) (a b : Rec), Chain cfg l → l[k]? = some b → l[k + 1]? = some a →
